@@ -951,6 +951,18 @@ impl Sim {
                 self.tx_snap = None;
                 self.ttx_snap = None;
             }
+            "nocount" => {
+                // the pending batch as releases without a request counter stored it (`unstake_requests_count: None`)
+                self.step += 1;
+                if let Ok(pid) = staking::state::PENDING_BATCH_ID.load(&self.deps.storage) {
+                    if let Ok(mut b) = staking::state::BATCHES.load(&self.deps.storage, pid) {
+                        b.unstake_requests_count = None;
+                        staking::state::BATCHES.save(&mut self.deps.storage, pid, &b).unwrap();
+                    }
+                }
+                self.emit("res ok".to_string());
+                self.dump_store();
+            }
             "tx_abort" => {
                 if let Some((s, i)) = self.tx_snap.take() {
                     self.deps.storage = s;
